@@ -124,7 +124,9 @@ func (u *Unreliable) initiate(req bool) {
 			select {
 			case <-ticker.C:
 				u.log.Info("init rto exceeded")
+				verifYield("ut.initiate.tick")
 			case <-u.initiated:
+				verifYield("ut.initiate.initiated")
 			case <-u.stopInitiate:
 				close(u.senderDone)
 				return
@@ -147,6 +149,7 @@ func (u *Unreliable) receiveInitiatePkt(pkt *initiateFrame) error {
 		"state":   u.state.Load(),
 	}).Debug("receiving initiate packet")
 
+	verifYield("ut.recvinit.cas")
 	if u.state.CompareAndSwap(created, initiated) {
 		close(u.initiated)
 	}
@@ -282,6 +285,7 @@ func (u *Unreliable) WriteMsgUDP(b, oob []byte, addr *net.UDPAddr) (n, oobn int,
 // the sender hands its queue to the Muxer. It does not wait for transport writes
 // or peer receipt. Future operations return io.EOF after buffered reads drain.
 func (u *Unreliable) Close() error {
+	verifYield("ut.close.lock")
 	u.lifecycleMu.Lock()
 	oldState := u.state.Swap(closed)
 	if oldState == closed {
@@ -290,11 +294,14 @@ func (u *Unreliable) Close() error {
 	}
 	u.lifecycleMu.Unlock()
 
+	verifYield("ut.close.stop")
 	if oldState == created {
 		close(u.stopInitiate)
 	}
+	verifYield("ut.close.waitinit")
 	<-u.initiateDone
 
+	verifYield("ut.close.lock2")
 	u.lifecycleMu.Lock()
 	defer u.lifecycleMu.Unlock()
 
